@@ -1,5 +1,655 @@
-"""Links over the lexer / grammar / models / generator (filled in as those engines are built)."""
+"""Generator link (E1-T): the REAL bodies of PythonCodeGen executed on symbolic AST nodes -> templates with typed holes
+-> (a) structural obligations (effects, depth bookkeeping, alignment, determinism), (b) z3 obligations on raw
+interpolation sites, (c) parse-oracle cases: template instantiated under interpretations vs the spec `D`.
+Recursive calls are replaced by the method's own contract (induction hypothesis)."""
+from __future__ import annotations
+
+import ast
+import keyword
+import traceback
+
+import z3
+
+from pyvc import struct as S
+from pyvc import tmpl as T
+from pyvc.contract import load_module
+from spec import d_ref as D
+from vcore import native
+from vcore.obl import Obl, DISCHARGED, REFUTED, UNDECIDED, ERROR, smt_decider
+
+GENMOD = "pyab_experiment.codegen.python.python_generator"
+GFN = GENMOD + ":PythonCodeGen."
+CMP_OPS = ["EQ", "NE", "GT", "GE", "LT", "LE", "NOT_IN", "IN"]
+STR_POOL = ["abc", "it's", 'say "hi"', "C:\\temp", "", "02134", "caf\u00e9", "'+str(print('PWNED'))+'", "a\\", "{x}", "%s", "\\n", "inf", "1e5", "'", '"""', "\\'"]
+INT_POOL = [0, 18, -5, 9007199254740993, 10 ** 30]
+FLOAT_POOL = [1.5, -0.25, 0.1, 1e22, 3.4]
+TUPLE_POOL = [(1, 2, 3), ("a",), (1, [2, 3]), ("it's", -1.5), (T.IdentObj("x"), 1), ((1,),), (1, [2, [3, "z"]])]
+NAME_SETS = [(["b", "a"], {"c", "a2"}), (["x"], {"x"}), (["u", "u", "t"], {"t", "w"}), (["B", "a", "_c"], set()), (["uid"], {"age", "country"})]
 
 
 def links_for(pid):
-    return []
+    return [link_generator]
+
+
+class Case:
+    def __init__(self, oid, fn, text, real, expected, props, mode="exec", note=None, replay=None):
+        self.oid, self.fn, self.text, self.real, self.expected, self.props, self.mode, self.note, self.replay = oid, fn, text, real, expected, props, mode, note, replay
+
+
+def placeholder(h, I):
+    k = h.kind
+    if k == "ParenExpr":
+        return "(__p%d__)" % h.id
+    if k == "Term":
+        return "__t%d__" % h.id
+    if k in ("Block", "ReturnStmt", "ElseClauses") and h.kw["depth"].absolute is not None:
+        d = h.kw["depth"].absolute
+        if k == "Block":
+            return "\t" * d + "__blk%d__\n" % h.id
+        if k == "ReturnStmt":
+            return "\t" * d + "__ret%d__\n" % h.id
+        return "\t" * d + "else: \n" + "\t" * (d + 1) + "__els%d__\n" % h.id
+    if k == "Block":
+        d = I.base + h.kw["depth"].k
+        return "\t" * d + "__blk%d__\n" % h.id
+    if k == "ReturnStmt":
+        d = I.base + h.kw["depth"].k
+        return "\t" * d + "__ret%d__\n" % h.id
+    if k == "ElseClauses":
+        d = I.base + h.kw["depth"].k
+        if I.values.get("elif_variant"):
+            return "\t" * d + "elif __q%d__: \n" % h.id + "\t" * (d + 1) + "__els%d__\n" % h.id
+        return "\t" * d + "else: \n" + "\t" * (d + 1) + "__els%d__\n" % h.id
+    if k == "Topline":
+        return D.TOPLINE
+    if k == "KeyExpr":
+        return "__key__"
+    raise S.Unsupported("no placeholder for hole %s" % k)
+
+
+def gen_replay(o):
+    r = native.one({"cmd": "pipeline_diff", "count": 200, "seed": 5, "limit": 1})
+    order = ["internal-error", "compile", "routing", "literal", "bucket", "module", "inert", "irrelevance", "total", "ast"]
+    f = next((r["failures"][k][0] for k in order if k in r["failures"]), None)
+    return {"input": f, "reproduced": bool(f), "oracle_case": (o.model or {}),
+            "note": "bounded differential of the real pipeline vs the reference semantics on generated programs"}
+
+
+def case_replay(o):
+    """replay an oracle counter-case on the REAL generator: build the concrete AST of the case and run it"""
+    m = o.model or {}
+    prog = m.get("program")
+    if prog:
+        r = native.one({"cmd": "pipeline_diff", "programs": [prog], "limit": 1, "envs": 8})
+        f = next((v[0] for v in r["failures"].values() if v), None)
+        if f:
+            return {"input": f, "reproduced": True, "note": "the case's DSL program run through the real pipeline vs the reference semantics"}
+    return gen_replay(o)
+
+
+class GenCtx:
+    def __init__(self, mutate=None):
+        self.mod = load_module(GENMOD, mutate)
+        self.cls = next((n for n in self.mod.tree.body if isinstance(n, ast.ClassDef) and n.name == "PythonCodeGen"), None)
+        from vcore.links_gram import model_info
+        self.enums, self.models = model_info()
+
+    def on_attr(self, base, attr):
+        if isinstance(base, S.Sym) and base.kind == "elem":
+            return S.Sym("%s.%s" % (base.name, attr), "field", base=base, field=attr)
+        return NotImplemented
+
+    def executor(self, contracts):
+        return S.SExec(classdef=self.cls, enums=self.enums, models=self.models, contracts=contracts, on_attr=self.on_attr)
+
+    def me(self, expose=False, ast_node=None, depth=None):
+        return S.Obj("PythonCodeGen", _experiment_ast=ast_node, _local_vars=S.SetT(), _conditional_ids=S.SetT(), _indentation_char="\t",
+                     _newline="\n", _indent_depth=depth if depth is not None else S.Depth(0), _expose_fn=expose)
+
+
+# ----------------------------------------------------------------------------------------------- contracts (IH)
+def as_depth(v):
+    return S.Depth(0, absolute=v) if isinstance(v, int) else v
+
+
+def c_indent(ex, me):
+    return S.Tmpl([S.Hole("indent", None, unit=me.attrs["_indentation_char"], depth=as_depth(me.attrs["_indent_depth"]))])
+
+
+def c_exception(ex, me):
+    return S.Tmpl([c_indent(ex, me), D.RAISE])
+
+
+def c_term(ex, me, term):
+    me.attrs["_conditional_ids"] = me.attrs["_conditional_ids"].union(S.SetT([("ids", _idnode(term))]))
+    return S.Tmpl([S.Hole("Term", term)])
+
+
+_IDNODES = {}
+
+
+def _idnode(x):
+    """a stable carrier object for 'the identifiers occurring in x'"""
+    key = id(x)
+    if key not in _IDNODES:
+        _IDNODES[key] = (S.Sym("ids", "ids"), x)
+    return _IDNODES[key][0]
+
+
+def c_predicate(ex, me, pred):
+    if pred is None:
+        return ""
+    me.attrs["_conditional_ids"] = me.attrs["_conditional_ids"].union(S.SetT([("ids", _idnode(pred))]))
+    return S.Tmpl([S.Hole("ParenExpr", pred)])
+
+
+def c_op(ex, me, op):
+    if isinstance(op, S.EnumV):
+        table = dict(D.CMP) if op.cls == "LogicalOperatorEnum" else dict(D.BOOL)
+        if op.name in table:
+            return table[op.name]
+    raise S.GenRaise("RuntimeError", "OperatorEnum not matched")
+
+
+def c_conditionals(ex, me, cond):
+    me.attrs["_conditional_ids"] = me.attrs["_conditional_ids"].union(S.SetT([("ids", _idnode(cond))]))
+    kind = "Block"
+    if isinstance(cond, S.Sym) and cond.info.get("clause"):
+        kind = "ElseClauses"
+    return S.Tmpl([S.Hole(kind, cond, depth=as_depth(me.attrs["_indent_depth"]), nonempty=True)])
+
+
+def c_group_return(ex, me, groups):
+    return S.Tmpl([S.Hole("ReturnStmt", groups, depth=as_depth(me.attrs["_indent_depth"]), nonempty=True)])
+
+
+def c_local_vars(ex, me):
+    return S.SeqT("sorted", me.attrs["_local_vars"])
+
+
+def c_conditional_ids(ex, me):
+    return S.SeqT("sorted", me.attrs["_conditional_ids"])
+
+
+def c_topline(ex, me):
+    return S.Tmpl([S.Hole("Topline", None, nonempty=True)])
+
+
+def c_key(ex, me):
+    node = me.attrs["_experiment_ast"]
+    f = node.fields["splitting_fields"]
+    if f is None or f == []:
+        return "None"
+    me.attrs["_local_vars"] = me.attrs["_local_vars"].union(S.SetT([("of", f)]))
+    return S.Tmpl([S.Hole("KeyExpr", None, nonempty=True)])
+
+
+ALL_CONTRACTS = {"indent": c_indent, "_generate_exception": c_exception, "_generate_term": c_term, "_generate_predicate": c_predicate,
+                 "_generate_op": c_op, "_generate_conditionals": c_conditionals, "_generate_group_return_statement": c_group_return,
+                 "local_vars": c_local_vars, "conditional_ids": c_conditional_ids, "render_topline": c_topline, "generate_key_definition": c_key}
+
+
+def contracts_except(*names):
+    return {k: v for k, v in ALL_CONTRACTS.items() if k not in names}
+
+
+# ----------------------------------------------------------------------------------------------- the link
+def link_generator(ctx, mutate=None, tag=""):
+    out, cases = [], []
+    pre = "gen%s:" % tag
+    try:
+        G = GenCtx(mutate)
+    except Exception:
+        return [Obl(pre + "extract", GFN, "template", "generator source can be read", status=ERROR, backend="extract", detail=traceback.format_exc()[-800:], props=("C02",))]
+    if G.cls is None:
+        return [Obl(pre + "extract", GFN, "template", "class PythonCodeGen exists", status=UNDECIDED, backend="extract", detail="missing", props=("C02", "C05", "C07", "C09", "C12", "C13", "C14", "C01", "C03", "C10", "C15"))]
+
+    def run(name, method, props, fn):
+        """run fn(); Unsupported/Undetermined => undecided obligation; GenRaise => refuted"""
+        oid = pre + name
+        try:
+            fn()
+        except (S.Unsupported, S.Undetermined, KeyError) as e:
+            out.append(Obl(oid + "/in-subset", GFN + method, "template", "method body inside the supported subset for this shape", status=UNDECIDED,
+                           backend="structural", detail="%s: %s" % (type(e).__name__, e), props=props))
+        except S.GenRaise as e:
+            out.append(Obl(oid + "/no-exception", GFN + method, "template", "the generator does not raise on a well-formed AST", status=REFUTED,
+                           backend="structural", detail=str(e), props=props, model={"raises": str(e)}, replay=gen_replay))
+
+    def struct_obl(oid, method, text, ok, detail, props, model=None, replay=gen_replay):
+        out.append(Obl(pre + oid, GFN + method, "template", text, status=DISCHARGED if ok else REFUTED, backend="structural", detail=detail, props=props,
+                       model=model if not ok else None, replay=replay))
+
+    # ---- A. small helpers -------------------------------------------------------------------------------------
+    def helpers():
+        ex = G.executor(contracts_except("indent"))
+        me = G.me(depth=S.Depth(0))
+        t = ex.call_method("indent", me, [])
+        ok = isinstance(t, S.Tmpl) and len(t.parts) == 1 and isinstance(t.parts[0], S.Hole) and t.parts[0].kind == "indent" and t.parts[0].kw["depth"].k == 0 and t.parts[0].kw["unit"] == "\t"
+        struct_obl("indent/==indentation_char*depth", "indent", "indent() is exactly indentation_char repeated _indent_depth times", ok, repr(t), ("C02", "C14", "C07"))
+        ex = G.executor(contracts_except("_generate_exception"))
+        me = G.me(depth=S.Depth(0))
+        t = ex.call_method("_generate_exception", me, [])
+        I = T.Interp(base_depth=2, placeholder=placeholder)
+        cases.append(Case(pre + "_generate_exception/raises-the-dedicated-error", GFN + "_generate_exception", "the unroutable-condition statement is `raise ExperimentConditionalFailedError()` at the current depth",
+                          "def f():\n\tdef g():\n" + T.render(t, I) + "\n", "def f():\n\tdef g():\n\t\t" + D.RAISE + "\n", ("C02", "C07")))
+        ex = G.executor(contracts_except("render_topline"))
+        t = ex.call_method("render_topline", G.me(), [])
+        cases.append(Case(pre + "render_topline/imports-exactly-the-skeleton-names", GFN + "render_topline", "the module header imports partial, ExperimentConditionalFailedError, deterministic_choice and nothing else",
+                          T.render(t, T.Interp(placeholder=placeholder)), D.TOPLINE, ("C14", "C13")))
+        for prop, attr in (("local_vars", "_local_vars"), ("conditional_ids", "_conditional_ids")):
+            ex = G.executor(contracts_except(prop))
+            me = G.me()
+            sym = S.Sym("names", "list", nonempty=True)
+            me.attrs[attr] = S.SetT([("of", sym)])
+            r = ex.dispatch(prop, me, [], {})
+            ok = isinstance(r, S.SeqT) and r.op == "sorted" and r.args[0].atoms == me.attrs[attr].atoms
+            struct_obl("%s/==sorted(set)" % prop, prop, "%s is the sorted list of the DISTINCT names (no dependence on set iteration order or declaration order)" % prop,
+                       ok, repr(r), ("C01", "C09", "C12"), model={"result": repr(r)})
+    run("helpers", "indent", ("C02", "C14", "C01"), helpers)
+
+    # ---- B. operators --------------------------------------------------------------------------------------------
+    def ops():
+        seen = {}
+        for cls, table in (("LogicalOperatorEnum", D.CMP), ("BooleanOperatorEnum", D.BOOL)):
+            for member in sorted(G.enums.get(cls, [])):
+                ex = G.executor(contracts_except("_generate_op"))
+                try:
+                    r = ex.call_method("_generate_op", G.me(), [S.EnumV(cls, member)])
+                except S.GenRaise as e:
+                    r = "raises %s" % e
+                want = table.get(member)
+                struct_obl("_generate_op/%s.%s" % (cls, member), "_generate_op", "%s.%s is rendered as the Python operator `%s`" % (cls, member, want),
+                           r == want, "got %r" % (r,), ("C02",), model={"operator": "%s.%s" % (cls, member), "rendered": repr(r), "expected": want})
+                seen[(cls, member)] = r
+        vals = [v for v in seen.values() if isinstance(v, str)]
+        struct_obl("_generate_op/injective", "_generate_op", "distinct DSL operators are rendered as distinct Python operators", len(vals) == len(set(vals)), str(seen), ("C02",))
+    run("ops", "_generate_op", ("C02",), ops)
+
+    # ---- C. terms ------------------------------------------------------------------------------------------------
+    def terms():
+        # identifier
+        ex = G.executor(contracts_except("_generate_term"))
+        me = G.me()
+        name = S.Sym("name", "ident")
+        r = ex.call_method("_generate_term", me, [S.Node("Identifier", name=name)])
+        ids = me.attrs["_conditional_ids"]
+        struct_obl("_generate_term/Identifier.renders-the-name", "_generate_term", "an identifier is rendered as its name (a Python Name)", r is name or (isinstance(r, S.Tmpl) and r.parts == [name]),
+                   repr(r), ("C02", "C07", "C09"))
+        struct_obl("_generate_term/Identifier.recorded-as-condition-field", "_generate_term", "the identifier is added to the condition fields (so it becomes a parameter)",
+                   len(ids.atoms) == 1 and ids.atoms[0][0] == "elem" and ids.atoms[0][1] is name, repr(ids), ("C07", "C09"))
+        # literals
+        for kind, pool in (("str", STR_POOL), ("int", INT_POOL), ("float", FLOAT_POOL), ("tuple", TUPLE_POOL)):
+            ex = G.executor(contracts_except("_generate_term") if kind != "tuple" else dict(contracts_except("_generate_term"), _generate_term=c_term))
+            me = G.me()
+            sym = S.Sym("lit", kind, nonempty=True)
+            if kind == "tuple":
+                # the method's own body on a tuple; members go through the induction hypothesis
+                ex2 = G.executor(contracts_except("_generate_term"))
+                ex2.contracts = dict(ex2.contracts)
+                depth = {"n": 0}
+
+                def ih(exx, mee, term, _ex2=ex2, _d=depth):
+                    if _d["n"] == 0:
+                        _d["n"] = 1
+                        try:
+                            return _ex2.call_method("_generate_term", mee, [term])
+                        finally:
+                            _d["n"] = 0
+                    return c_term(exx, mee, term)
+                ex2.contracts["_generate_term"] = ih
+                r = ih(ex2, me, sym)
+            else:
+                r = ex.call_method("_generate_term", me, [sym])
+            t = S.Tmpl([ex.fmt(r)]) if not isinstance(r, S.Tmpl) else r      # what an f-string makes of it
+            struct_obl("_generate_term/%s.no-condition-field" % kind, "_generate_term", "a literal adds no parameter (tuple members only through their own rendering)",
+                       all(a[0] == "ids" for a in me.attrs["_conditional_ids"].atoms), repr(me.attrs["_conditional_ids"]), ("C07", "C09"))
+            raw = raw_quote_site(t)
+            if raw is not None:
+                out.append(raw_obligation(pre + "_generate_term/%s.raw-quoting" % kind, "_generate_term", raw, ctx, ("C05", "C13")))
+            for i, v in enumerate(pool):
+                I = T.Interp({sym.id: v}, placeholder=placeholder, spec_term=D.term)
+                try:
+                    real = T.render(t, I)
+                except S.GenRaise as e:
+                    real = "raise %s" % e
+                prog = None
+                try:
+                    from spec import dsl_ref
+                    if kind != "tuple" or all(not isinstance(x, (list, T.IdentObj)) for x in v):
+                        prog = 'def e { splitters: uid if x == %s { return "A" weighted 1 } else { return "B" weighted 1 } }' % dsl_ref.r_term(_spec_term(v))
+                except Exception:   # noqa
+                    prog = None
+                cases.append(Case(pre + "_generate_term/%s[%d] denotes the literal" % (kind, i), GFN + "_generate_term",
+                                  "the rendered term is a Python expression denoting exactly %r (value and type)" % (v,), "(" + real + ")", "(" + D.term(v) + ")",
+                                  ("C05", "C13", "C02", "C07") if kind != "tuple" else ("C05", "C07", "C02"), mode="eval", note={"value": repr(v), "program": prog}, replay=case_replay))
+    run("terms", "_generate_term", ("C05", "C07", "C13"), terms)
+
+    # ---- D. predicates -------------------------------------------------------------------------------------------
+    def preds():
+        for op in sorted(G.enums.get("LogicalOperatorEnum", [])):
+            ex = G.executor(contracts_except("_generate_predicate"))
+            me = G.me()
+            L, R = S.Sym("L", "any-term"), S.Sym("R", "any-term")
+            node = S.Node("TerminalPredicate", left_term=L, logical_operator=S.EnumV("LogicalOperatorEnum", op), right_term=R)
+            t = ex.call_method("_generate_predicate", me, [node])
+            hs = [h for h in S.Tmpl([t]).holes() if h.kind == "Term"]
+            order_ok = len(hs) == 2 and hs[0].payload is L and hs[1].payload is R
+            I = T.Interp(placeholder=placeholder)
+            real = T.render(t, I)
+            exp = D.compare(op, "__t%d__" % hs[0].id, "__t%d__" % hs[1].id) if order_ok and op in D.CMP else "<unexpected>"
+            cases.append(Case(pre + "_generate_predicate/Terminal.%s" % op, GFN + "_generate_predicate", "left <%s> right, operands in order, as ONE parenthesised expression" % D.CMP.get(op, op),
+                              real, "(" + exp + ")", ("C02", "C07"), mode="eval", note={"operator": op}))
+            struct_obl("_generate_predicate/Terminal.%s.parenthesised" % op, "_generate_predicate", "the rendered comparison is wrapped in parentheses (an atom for every context)",
+                       isinstance(t, S.Tmpl) and t.parts and t.parts[0] == "(" or (isinstance(t.parts[0], str) and t.parts[0].startswith("(")) and isinstance(t.parts[-1], str) and t.parts[-1].endswith(")"),
+                       repr(t), ("C02",))
+        for op in sorted(G.enums.get("BooleanOperatorEnum", [])):
+            ex = G.executor(contracts_except("_generate_predicate"))
+            ex.contracts = dict(ex.contracts)
+            P1, P2 = S.Sym("P1", "node:pred"), S.Sym("P2", "node:pred")
+            first = {"n": 0}
+
+            def ih(exx, mee, pred, _ex=ex, _f=first):
+                if _f["n"] == 0:
+                    _f["n"] = 1
+                    return _ex.call_method("_generate_predicate", mee, [pred])
+                return c_predicate(exx, mee, pred)
+            ex.contracts["_generate_predicate"] = ih
+            me = G.me()
+            node = S.Node("RecursivePredicate", left_predicate=P1, boolean_operator=S.EnumV("BooleanOperatorEnum", op), right_predicate=None if op == "NOT" else P2)
+            t = ih(ex, me, node)
+            hs = [h for h in S.Tmpl([t]).holes() if h.kind == "ParenExpr"]
+            I = T.Interp(placeholder=placeholder)
+            real = T.render(t, I)
+            want_n = 1 if op == "NOT" else 2
+            if len(hs) == want_n and hs[0].payload is P1 and (op == "NOT" or hs[1].payload is P2) and op in D.BOOL:
+                exp = D.boolean(op, "__p%d__" % hs[0].id, "__p%d__" % hs[1].id if op != "NOT" else None)
+            else:
+                exp = "<unexpected>"
+            cases.append(Case(pre + "_generate_predicate/Recursive.%s" % op, GFN + "_generate_predicate", "`%s` of the sub-predicates, in order, parenthesised" % D.BOOL.get(op, op),
+                              real, "(" + exp + ")", ("C02", "C07"), mode="eval", note={"operator": op}))
+        ex = G.executor(contracts_except("_generate_predicate"))
+        r = ex.call_method("_generate_predicate", G.me(), [None])
+        struct_obl("_generate_predicate/None.empty", "_generate_predicate", "no predicate (ELSE) renders as the empty string", r == "", repr(r), ("C02",))
+    run("predicates", "_generate_predicate", ("C02", "C07"), preds)
+
+    # ---- E. return statement -------------------------------------------------------------------------------------
+    def groups():
+        ex = G.executor(contracts_except("_generate_group_return_statement"))
+        me = G.me(depth=S.Depth(0))
+        gs = S.Sym("groups", "groups", nonempty=True)
+        t = ex.call_method("_generate_group_return_statement", me, [gs])
+        lists = [h for h in S.Tmpl([t]).holes() if h.kind == "str(list)"]
+
+        def plain_map_over(h, field):
+            q = h.payload
+            return isinstance(q, S.SeqT) and q.op == "map" and isinstance(q.args[2], S.SeqT) and q.args[2].op == "sym" and q.args[2].args[0] is gs and \
+                isinstance(q.args[0], S.Sym) and q.args[0].kind == "field" and q.args[0].info["field"] == field and q.args[0].info["base"] is q.args[1]
+        ok = len(lists) == 2 and plain_map_over(lists[0], "group_definition") and plain_map_over(lists[1], "group_weight")
+        struct_obl("_generate_group_return_statement/position-aligned", "_generate_group_return_statement",
+                   "population and weights are both maps over the SAME group list in declaration order (group i <-> weight i)", ok, repr(t), ("C03", "C10", "C02"),
+                   model={"template": repr(t)})
+        pools = [[("A", 1.0), ("B", 2.0)], [("b", 0.2), ("a", 0.2), ("c", 0.6)], [(0, 1.0), (1.5, 0.5), ("0", 3.4)], [("it's", 1.0), ("C:\\temp", 1e-9), ("", 1e9)], [(9007199254740993, 1.0)]]
+        for i, pool in enumerate(pools):
+            I = T.Interp({gs.id: [{"group_definition": d, "group_weight": w} for d, w in pool]}, base_depth=3, placeholder=placeholder)
+            real = T.render(t, I)
+            labels = ", ".join("%s weighted %s" % (_dsl_lit(d), _dsl_lit(w)) for d, w in pool)
+            cases.append(Case(pre + "_generate_group_return_statement/[%d]" % i, GFN + "_generate_group_return_statement",
+                              "`return partial(deterministic_choice, population=[...], weights=[...])` with exact labels (value and type) in declaration order",
+                              "def f():\n\tdef g():\n\t\tif x:\n" + real, "def f():\n\tdef g():\n\t\tif x:\n" + D.group_return(3, pool), ("C03", "C05", "C10", "C13", "C02"),
+                              note={"groups": repr(pool), "program": 'def e { splitters: uid return %s }' % labels}, replay=case_replay))
+    run("groups", "_generate_group_return_statement", ("C03", "C05"), groups)
+
+    # ---- F. conditionals -----------------------------------------------------------------------------------------
+    def conds():
+        ex0 = G.executor(contracts_except("_generate_conditionals"))
+        me = G.me(depth=S.Depth(0))
+        gs = S.Sym("groups", "groups", nonempty=True)
+        t = ex0.call_method("_generate_conditionals", me, [gs])
+        hs = S.Tmpl([t]).holes() if not isinstance(t, str) else []
+        struct_obl("_generate_conditionals/leaf==return-statement", "_generate_conditionals", "a group list is rendered by _generate_group_return_statement at the current depth",
+                   len(hs) == 1 and hs[0].kind == "ReturnStmt" and hs[0].payload is gs and hs[0].kw["depth"].k == 0, repr(t), ("C02", "C03"))
+        for ct in sorted(G.enums.get("ConditionalType", [])):
+            for fb_kind in ("none", "else", "elif"):
+                if ct == "ELSE" and fb_kind != "none":
+                    continue
+                ex = G.executor(contracts_except("_generate_conditionals"))
+                ex.contracts = dict(ex.contracts)
+                first = {"n": 0}
+
+                def ih(exx, mee, cond, _ex=ex, _f=first):
+                    if _f["n"] == 0:
+                        _f["n"] = 1
+                        return _ex.call_method("_generate_conditionals", mee, [cond])
+                    return c_conditionals(exx, mee, cond)
+                ex.contracts["_generate_conditionals"] = ih
+                me = G.me(depth=S.Depth(0))
+                P = S.Sym("P", "node:pred")
+                TB = S.Sym("TB", "node:cond")
+                FB = None if fb_kind == "none" else S.Sym("FB", "node:cond", clause=True)
+                node = S.Node("ExperimentConditional", conditional_type=S.EnumV("ConditionalType", ct), predicate=None if ct == "ELSE" else P, true_branch=TB, false_branch=FB)
+                t = ih(ex, me, node)
+                name = "%s/%s" % (ct, fb_kind)
+                struct_obl("_generate_conditionals/%s.depth-restored" % name, "_generate_conditionals", "_indent_depth on exit == on entry", me.attrs["_indent_depth"].k == 0,
+                           repr(me.attrs["_indent_depth"]), ("C02", "C14", "C07"))
+                hs = S.Tmpl([t]).holes()
+                blk = [h for h in hs if h.kind == "Block"]
+                els = [h for h in hs if h.kind == "ElseClauses"]
+                pe = [h for h in hs if h.kind == "ParenExpr"]
+                shape_ok = len(blk) == 1 and blk[0].payload is TB and blk[0].kw["depth"].k == 1 and len(els) == (0 if FB is None else 1) and \
+                    (FB is None or (els[0].payload is FB and els[0].kw["depth"].k == 0)) and len(pe) == (0 if ct == "ELSE" else 1) and (ct == "ELSE" or pe[0].payload is P)
+                struct_obl("_generate_conditionals/%s.children-at-the-right-depth" % name, "_generate_conditionals",
+                           "true branch rendered one level deeper, false branch at the same level, the node's own predicate used once", shape_ok, repr(t), ("C02", "C07"))
+                if not shape_ok:
+                    continue
+                for variant in ((False, True) if FB is not None else (False,)):
+                    I = T.Interp({"elif_variant": variant}, base_depth=2, placeholder=placeholder)
+                    real = T.render(t, I)
+                    head = "\t\tif __pre__:\n\t\t\tpass\n" if ct != "IF" else ""
+                    d2, d3 = "\t\t", "\t\t\t"
+                    if ct == "ELSE":
+                        exp = d2 + "else:\n" + d3 + "__blk%d__\n" % blk[0].id
+                    else:
+                        exp = d2 + ("if" if ct == "IF" else "elif") + " (__p%d__):\n" % pe[0].id + d3 + "__blk%d__\n" % blk[0].id
+                    if FB is not None:
+                        exp += (d2 + "elif __q%d__:\n" % els[0].id if variant else d2 + "else:\n") + d3 + "__els%d__\n" % els[0].id
+                    wrap = "def f():\n\tdef g():\n"
+                    cases.append(Case(pre + "_generate_conditionals/%s%s" % (name, ".elif-tail" if variant else ""), GFN + "_generate_conditionals",
+                                      "%s clause: `%s <predicate>:` + true branch one level deeper + the rest of the chain as its else/elif clauses" % (ct, ct.lower()),
+                                      wrap + head + real, wrap + head + exp, ("C02", "C07", "C14"), note={"conditional": ct, "false_branch": fb_kind}))
+    run("conditionals", "_generate_conditionals", ("C02", "C07"), conds)
+
+    # ---- G. key definition ---------------------------------------------------------------------------------------
+    def keys():
+        for salt_kind in ("none", "str"):
+            for f_kind in ("none", "empty", "list"):
+                ex = G.executor(contracts_except("generate_key_definition"))
+                salt = None if salt_kind == "none" else S.Sym("salt", "str")
+                F = None if f_kind == "none" else ([] if f_kind == "empty" else S.Sym("F", "list", nonempty=True))
+                node = S.Node("ExperimentAST", id=S.Sym("id", "ident"), splitting_fields=F, salt=salt, conditions=S.Sym("C", "node:cond"))
+                me = G.me(ast_node=node)
+                t = ex.call_method("generate_key_definition", me, [])
+                name = "salt=%s,splitters=%s" % (salt_kind, f_kind)
+                lv = me.attrs["_local_vars"]
+                if f_kind != "list":
+                    struct_obl("generate_key_definition/%s.no-key" % name, "generate_key_definition", "without splitter fields there is no key (the expression `None`) and no splitter parameter",
+                               t == "None" and not lv.atoms, "%r %r" % (t, lv), ("C09", "C12", "C01"))
+                    continue
+                struct_obl("generate_key_definition/%s.key-is-an-expression" % name, "generate_key_definition", "with splitter fields the key is a str expression, never `None` (the random branch is unreachable)",
+                           isinstance(t, S.Tmpl) and t.definitely_nonempty() and t != "None", repr(t), ("C01", "C15", "C12"))
+                struct_obl("generate_key_definition/%s.splitters-recorded" % name, "generate_key_definition", "_local_vars == set(splitting_fields) afterwards (every splitter becomes a parameter, nothing else)",
+                           len(lv.atoms) == 1 and lv.atoms[0][0] == "of" and lv.atoms[0][1] is F, repr(lv), ("C09", "C07", "C12"))
+                if isinstance(t, str):
+                    continue
+                if salt is not None:
+                    raw = raw_quote_site(t, only=salt)
+                    if raw is not None:
+                        out.append(raw_obligation(pre + "generate_key_definition/%s.salt-raw-quoting" % name, "generate_key_definition", raw, ctx, ("C13", "C05", "C12", "C15")))
+                for i, (names, _) in enumerate(NAME_SETS):
+                    for j, sv in enumerate(STR_POOL if salt is not None else [None]):
+                        if salt is not None and i > 0 and j > 2:
+                            continue
+                        vals = {F.id: names}
+                        if salt is not None:
+                            vals[salt.id] = sv
+                        I = T.Interp(vals, placeholder=placeholder)
+                        real = T.render(t, I)
+                        if I.havoc:
+                            struct_obl("generate_key_definition/%s.deterministic-order[%d]" % (name, i), "generate_key_definition", "the key does not depend on set iteration order", False,
+                                       str(I.havoc), ("C01", "C12", "C09"), model={"havoc": I.havoc})
+                        prog = None
+                        try:
+                            from spec import dsl_ref
+                            prog = "def e { %s splitters: %s return \"A\" weighted 1, \"B\" weighted 1, \"C\" weighted 2 }" % (("salt: %s" % dsl_ref.q(sv)) if sv is not None else "", ", ".join(names))
+                        except Exception:   # noqa
+                            prog = None
+                        cases.append(Case(pre + "generate_key_definition/%s[%d,%d]" % (name, i, j), GFN + "generate_key_definition",
+                                          "key == <salt literal> + ''.join(map(str, [splitters in alphabetical order, distinct]))", real, D.key_expr(sv, names),
+                                          ("C12", "C09", "C01", "C13", "C15", "C05"), mode="eval", note={"salt": sv, "splitters": names, "program": prog}, replay=case_replay))
+    run("keys", "generate_key_definition", ("C12", "C09"), keys)
+
+    # ---- H. generate ---------------------------------------------------------------------------------------------
+    def gen():
+        for expose in (False, True):
+            for f_kind in ("list", "none"):
+                ex = G.executor(contracts_except("generate"))
+                F = S.Sym("F", "list", nonempty=True) if f_kind == "list" else None
+                idn = S.Sym("id", "ident")
+                C = S.Sym("C", "node:cond")
+                node = S.Node("ExperimentAST", id=idn, splitting_fields=F, salt=S.Sym("salt", "str"), conditions=C)
+                me = G.me(expose=expose, ast_node=node)
+                t = ex.call_method("generate", me, [])
+                name = "%s,splitters=%s" % ("exposed" if expose else "nested", f_kind)
+                blk = [h for h in S.Tmpl([t]).holes() if h.kind == "Block"]
+                struct_obl("generate/%s.body-rendered-once" % name, "generate", "the condition tree is rendered exactly once, below the helper's signature",
+                           len(blk) == 1 and blk[0].payload is C and blk[0].kw["depth"].absolute == (1 if expose else 2), repr(blk), ("C02", "C14", "C10"))
+                keyh = [h for h in S.Tmpl([t]).holes() if h.kind == "KeyExpr"]
+                struct_obl("generate/%s.single-key-applied-to-the-routed-partial" % name, "generate", "one key expression per experiment, applied to whatever the routing returns",
+                           (len(keyh) == 1) if f_kind == "list" else ("(None)" in repr(t)), repr(keyh), ("C10", "C09", "C12"))
+                if len(blk) != 1:
+                    continue
+                idsym = next((a[1] for a in me.attrs["_conditional_ids"].atoms if a[0] == "ids"), None)
+                for i, (names, cids) in enumerate(NAME_SETS):
+                    for eid in (["exp"] if i else ["exp", "my_experiment", "E1"]):
+                        vals = {idn.id: eid}
+                        if F is not None:
+                            vals[F.id] = names
+                        if idsym is not None:
+                            vals[("ids", idsym.id)] = set(cids)
+                        I = T.Interp(vals, placeholder=placeholder)
+                        real = T.render(t, I)
+                        body = "\t" * (1 if expose else 2) + "__blk%d__\n" % blk[0].id
+                        exp = D.module(eid, names if F is not None else [], cids, "__key__" if F is not None else "None", body, None, expose)
+                        spl = ", ".join(names)
+                        cond = " and ".join("%s == 1" % c for c in sorted(cids))
+                        prog = ("def %s { splitters: %s %s }" % (eid, spl, ('if %s { return "A" weighted 1 } else { return "B" weighted 1 }' % cond) if cids else 'return "A" weighted 1')) if F is not None else None
+                        cases.append(Case(pre + "generate/%s[%d,%s]" % (name, i, eid), GFN + "generate",
+                                          "module skeleton: def <id>(<distinct splitters U condition fields>, **kwargs), helper %s, trailing raise, helper called by keyword and applied to the key" % ("at module level" if expose else "nested"),
+                                          real, exp, ("C14", "C07", "C09", "C02", "C12"), mode="exec-sortparams", note={"splitters": names, "condition_fields": sorted(cids), "id": eid, "layout": "exposed" if expose else "nested", "program": prog},
+                                          replay=case_replay))
+                        if I.havoc:
+                            struct_obl("generate/%s.deterministic-order[%d]" % (name, i), "generate", "the generated text does not depend on set iteration order", False, str(I.havoc),
+                                       ("C01", "C09"), model={"havoc": I.havoc})
+    run("generate", "generate", ("C14", "C07", "C09"), gen)
+
+    # ---- I. identifiers as Python names (C07 / C14 name capture) ------------------------------------------------------
+    out.extend(identifier_obligations(pre))
+
+    # ---- oracle -----------------------------------------------------------------------------------------------------
+    if cases:
+        try:
+            res = native.one({"cmd": "parse_oracle", "cases": [{"real": c.real, "expected": c.expected, "mode": c.mode} for c in cases]})
+        except Exception:
+            res = None
+            out.append(Obl(pre + "oracle", GFN, "template", "parse oracle runs", status=ERROR, backend="template-oracle", detail=traceback.format_exc()[-800:], props=("C02",)))
+        if res is not None:
+            for c, r in zip(cases, res):
+                out.append(Obl(c.oid, c.fn, "template", c.text, status=DISCHARGED if r["same"] else REFUTED, backend="template-oracle",
+                               detail="real text %r\n  parses to %s\nexpected %r\n  parses to %s" % (c.real[:400], r["real"][:500], c.expected[:400], r["expected"][:500]) if not r["same"] else "ASTs equal",
+                               props=c.props, model=dict(c.note or {}, real_text=c.real[:600], expected_text=c.expected[:600]) if not r["same"] else None, replay=c.replay or gen_replay))
+    return out
+
+
+def _dsl_lit(v):
+    from spec import dsl_ref
+    return dsl_ref.lit(v)
+
+
+def _spec_term(v):
+    if isinstance(v, T.IdentObj):
+        return ["id", v.name]
+    if isinstance(v, (tuple, list)):
+        return ["tuple", [_spec_term(x) for x in v]]
+    return ["lit", v]
+
+
+def raw_quote_site(t, only=None):
+    """find  '…' + str(sym) + '…'  : a raw interpolation of a DSL string between quotes the generator adds"""
+    parts = t.parts if isinstance(t, S.Tmpl) else []
+    for i, p in enumerate(parts):
+        if isinstance(p, S.Hole) and p.kind == "str()" and isinstance(p.payload, S.Sym) and p.payload.kind == "str" and (only is None or p.payload is only):
+            before = parts[i - 1] if i > 0 and isinstance(parts[i - 1], str) else ""
+            after = parts[i + 1] if i + 1 < len(parts) and isinstance(parts[i + 1], str) else ""
+            q = before[-1:] if before[-1:] in ("'", '"') else None
+            return {"quote": q, "before": before, "after": after}
+    return None
+
+
+def raw_obligation(oid, method, raw, ctx, props):
+    """for ALL strings s the language can express:  quote + s + quote  is ONE Python string token denoting s"""
+    s = z3.String("s")
+    expressible = z3.Not(z3.Contains(s, z3.StringVal("\n")))      # DSL strings cannot contain a newline
+    if raw["quote"] is None or not raw["after"].startswith(raw["quote"]):
+        goal = z3.BoolVal(False)
+    else:
+        qt = raw["quote"]
+        # a '…' token denotes its content verbatim iff the content has no quote of that kind, no backslash, no newline
+        goal = z3.And(z3.Not(z3.Contains(s, z3.StringVal(qt))), z3.Not(z3.Contains(s, z3.StringVal("\\"))))
+    o = Obl(oid, GFN + method, "template", "for every DSL string s: %s{s}%s is a single Python string literal denoting s" % (raw["quote"], raw["quote"]),
+            decide=smt_decider([expressible], goal, ctx.tier, model_vars={"s": s}), props=props)
+
+    def rep(ob):
+        sv = native.z3str((ob.model or {}).get("s", "'"))
+        from spec import dsl_ref
+        try:
+            lit = dsl_ref.q(sv)
+        except ValueError:
+            sv, lit = "'", dsl_ref.q("'")
+        progs = ['def e { salt: %s splitters: uid return "A" weighted 1, "B" weighted 1 }' % lit,
+                 'def e { splitters: uid if x == %s { return "A" weighted 1 } else { return "B" weighted 1 } }' % lit]
+        r = native.one({"cmd": "pipeline_diff", "programs": progs, "limit": 1, "envs": 6})
+        f = next((v[0] for v in r["failures"].values() if v), None)
+        if f is None:
+            return gen_replay(ob)
+        return {"input": f, "reproduced": True, "string": sv}
+    o.replay = rep
+    return o
+
+
+RESERVED_KNOWN = None
+
+
+def identifier_obligations(pre):
+    """DSL identifiers are emitted verbatim as Python parameter names.  Full obligation: no identifier the lexer
+    accepts is a Python keyword or a name the skeleton itself uses (refuted: `class`, `partial`, ...).  Restricted
+    obligation (always required): the set of capturing names is exactly the documented one."""
+    skeleton = {"partial", "deterministic_choice", "ExperimentConditionalFailedError", D.HELPER, "kwargs", "str", "map"}
+    reserved = sorted(set(keyword.kwlist) | skeleton)
+    idre = z3.Concat(z3.Union(z3.Range("a", "z"), z3.Range("A", "Z"), z3.Re("_")), z3.Star(z3.Union(z3.Range("a", "z"), z3.Range("A", "Z"), z3.Range("0", "9"), z3.Re("_"))))
+    n = z3.String("name")
+    s = z3.Solver()
+    s.add(z3.InRe(n, idre), z3.Or(*[n == z3.StringVal(r) for r in reserved]))
+    sat = s.check() == z3.sat
+    wit = s.model()[n].as_string() if sat else None
+
+    def rep(ob):
+        progs = ['def e { splitters: uid if class == 1 { return "A" weighted 1 } else { return "B" weighted 1 } }',
+                 'def e { splitters: uid if partial == 1 { return "A" weighted 1 } else { return "B" weighted 1 } }',
+                 'def e { splitters: str return "A" weighted 1, "B" weighted 1 }']
+        r = native.one({"cmd": "pipeline_diff", "programs": progs, "limit": 3, "envs": 4})
+        f = [v[0] for v in r["failures"].values() if v]
+        return {"input": f[:2], "reproduced": bool(f)}
+    full = Obl(pre + "identifiers/never-capture-python-names", GFN + "generate", "template",
+               "no identifier the lexer accepts is a Python keyword or a name the generated skeleton uses (partial, deterministic_choice, str, map, kwargs, ...)",
+               status=REFUTED if sat else DISCHARGED, backend="z3", detail="witness identifier %r" % wit, props=("C07",), model={"identifier": wit, "reserved": reserved}, replay=rep)
+    return [full]
